@@ -481,6 +481,45 @@ theorem exists_iff_get (s : Mem) (k : Key) :
 example : ((Mem.init 2).run [.set 0 (.tok 1) (some 8) .always, .adv 8, .delete 0, .get 0, .getExpire 0]).2
     = [.bool true, .unit, .bool false, .val none, .int (-2)] := by decide
 
+/-- **An unconditional write is readable immediately, in every state** — full or not (the
+capacity trim never takes the key just written when `size ≥ 1`), whatever entry, live or
+expired, the key held before, whatever TTL. -/
+theorem set_then_get_any_state (s : Mem) (hc : 0 < s.cap) (k : Key) (v : Val) (ttl : Option Nat) :
+    ((s.step (.set k v ttl .always)).1.step (.get k)).2 = .val (some v) := by
+  simp only [Mem.step]
+  rw [rawSet_then_get s hc]
+
+/-- the capacity hypothesis is needed: a store of size 0 drops the write at once (mirrored) -/
+example : ((Mem.init 0).run [.set 0 (.tok 1) none .always, .get 0]).2 = [.bool true, .val none] := by decide
+
+
+/-- **A counter reads back what `incr` returned**, in every state with `size ≥ 1`. -/
+theorem incr_then_get_any_state (s : Mem) (hc : 0 < s.cap) (k : Key) (b : Int) (ttl : Option Nat) (n : Int)
+    (h : (s.step (.incr k b ttl)).2 = .int n) :
+    ((s.step (.incr k b ttl)).1.step (.get k)).2 = .val (some (.int n)) := by
+  rcases incr_shape s k b ttl with he | ⟨c, _, hs⟩
+  · rw [he] at h; cases h
+  · rw [hs] at h ⊢
+    simp only at h
+    injection h with h; subst h
+    simp only [Mem.step]
+    rw [rawSet_then_get _ (by rw [rawGet_cap]; exact hc)]
+
+/-- **Increments accumulate — none is lost between two consecutive calls**, in every state
+with `size ≥ 1`, whatever the TTL arguments: the second `incr` returns the first result plus
+its own amount. -/
+theorem incr_accumulates_any_state (s : Mem) (hc : 0 < s.cap) (k : Key) (a b : Int) (t1 t2 : Option Nat) (n : Int)
+    (h : (s.step (.incr k a t1)).2 = .int n) :
+    ((s.step (.incr k a t1)).1.step (.incr k b t2)).2 = .int (n + b) := by
+  have hg := incr_then_get_any_state s hc k a t1 n h
+  generalize (s.step (.incr k a t1)).1 = s1 at hg
+  simp only [Mem.step] at hg ⊢
+  injection hg with hg
+  simp [hg, Val.toInt?]
+
+example : ((Mem.init 1).run [.set 0 (.tok 7) none .always, .incr 1 5 (some 8), .incr 1 (-4) (some 8), .adv 8, .get 1, .incr 0 1 none]).2
+    = [.bool true, .int 5, .int 1, .unit, .val none, .int 1] := by decide
+
 end AnyState
 
 end CashewsVerif.Props.C01
